@@ -687,13 +687,17 @@ def run(ctx):
         "numpy.polyfit / numpy.linalg.lstsq coefficients are oracle inputs recomputed by the harness with the same call; "
         "the model certifies them (normal equations A^T(Ac-y)=0 to 1e-9 relative) before using them",
         "LAPACK eigh frames of the fictitious strains are oracle inputs (their contract is C03's per-run check)",
-        "parsers of the two data files (C17) and fill_cij (C08): the model is applied to the parsed, filled table",
+        "parsers of the two data files (C17) and fill_cij (C08): the model is applied to the parsed, filled table; since "
+        "round 5/6 the parse and the filling GLUE are no longer trusted: every (volume, table row, lattice row) the "
+        "implementation holds is compared with the check's own reading of the static file (own_rows), and the table the fit "
+        "starts from with fill_cij (still trusted, C08/C09) applied to that own reading (fill_glue)",
         "unit constants are read from the implementation and compared with CODATA 2018 (1e-7)",
     ]
     ctx.partial += ["QHA free energy / pressure / heat capacity and FITPACK splines are not modelled (oracle inputs)",
                     "shear components are covered by the Coq tie only; the Python oracle recomputes static part, axial "
                     "strains, static pressure and the non-shear phonon part",
-                    "fill-first is checked through the key set and the static part of the filled columns"]
+                    "fill-first is checked through the key set, the static part of the filled columns and fill_glue "
+                    "(over-specified tables: c22 listed beside c11, 0.05-0.2 GPa off)"]
     voigt_tie(ctx, rd)
     shutil.copy(PROPS / "Prop_C05.v", rd / "Prop_C05.v")
     ctx.prove(rd / "Prop_C05.v", "Prop_C05.v (static interpolation / composition / axial-strain theorems)",
